@@ -1271,7 +1271,10 @@ class TmpStore:
         # a copy of the index here.  An alternative would be to ensure that
         # all callers pass copies.  As is, our callers do not make copies.
         self.index = index.copy()
-        self.creating = creating
+        # The same goes for `creating`: it is the dictionary kept by the
+        # savepoint we are rolled back to, and later savepoints update
+        # self.creating in place.
+        self.creating = creating.copy()
 
 
 class RootConvenience:
